@@ -30,6 +30,7 @@ def site(f):
 def run(run):
     q = run.tier == "quick"
     run.assumptions += [
+        "KNOWN FINDING F79 (not repaired): the cursor status readers (Cursor.IsOpen/IsInRange/Count/Pointer, first line of Fetch) read c.view/c.index/c.fetched without c.mtx; re-found statically and by the race detector on every run, accepted only under its own signature",
         "F7 (HasError/Err without the mutex; pos/err shared by the loader goroutines) is fixed in /repo (bec97d6); the sites are still extracted, proved guarded/atomic/sole-goroutine on every run and exercised under the race detector",
         "TRUSTED: an access the extractor classifies ownIndex/guarded/chan/wg/readOnly really has that access pattern at run time (functions CALLED from the worker closures are not analysed, except METHODS called on a shared object: their source (module, dependencies, standard library) is summarised into reads/writes of the receiver's fields, transitively over the type's own methods and one level into the fields' methods; unresolved effects count as writes; objects a function takes from the context (ctx.Value(key).(*T)) are treated as shared by all workers of the statement, so a write to one needs a lock; a receiver handed on as an argument and local aliases of receiver fields are not followed)",
         "TRUSTED: Go memory model; a data race is rendered as: two accesses of different goroutines of one fork-join region, same location, one a write, disjoint locksets, not both operations of a synchronisation object",
@@ -76,15 +77,25 @@ def run(run):
     # tie the race reports to the static classification: a report one of whose two accesses is at a
     # line the facts call `unguarded` confirms that site (same signature); any other report means the
     # classification (or an unanalysed callee) is wrong and keeps its own signature law:race:<frames>
-    by_line = {}
-    for f in ung:
-        by_line.setdefault((f["file"], f["line"]), site(f))
+    by_line = {}      # (file, line) of an unguarded fact -> [(region, site)]
+    regions_at = {}   # (file, line) of any fact -> regions
+    for f in facts:
+        regions_at.setdefault((f["file"], f["line"]), set()).add(f["region"])
+        if f["cls"] == "unguarded":
+            by_line.setdefault((f["file"], f["line"]), []).append((f["region"], site(f)))
     confirmed, unexplained = set(), 0
     for p in run.problems[before:]:
         if p.kind == "law" and p.name.startswith("race:") and isinstance(p.detail, dict):
             case = p.detail.get("case")
             frames = case.get("frames", []) if isinstance(case, dict) else []
-            hits = sorted({by_line[(fr.get("file"), fr.get("line"))] for fr in frames if (fr.get("file"), fr.get("line")) in by_line})
+            keys = [(fr.get("file"), fr.get("line")) for fr in frames]
+            hits = []
+            for k in keys:
+                for region, sg in by_line.get(k, []):
+                    # the report confirms a static site only if BOTH accesses are accesses of that site's region
+                    if all(region in regions_at.get(k2, set()) for k2 in keys):
+                        hits.append(sg)
+            hits = sorted(set(hits))
             if hits:
                 p.signature = hits[0]
                 p.name = hits[0] + " (race detector report)"
@@ -111,7 +122,7 @@ def run(run):
                               for f in facts[:: max(1, len(facts) // 5)]][:5] + run.cov["samples"]
     return run.finish(
         level="proof",
-        rule="static: every access to a shared variable in every fork-join region of lib/query (closures passed to GoroutineTaskManager.Run / EvaluateSequentially, bodies started with go, the parent between fork and join, methods of the manager types), classified and checked by kernel evaluation; dynamic: a load matrix first (CSV, TSV, fixed-length, LTSV, JSONL, JSON; from a file and from stdin; with and without header; row counts 159/161/299/301/650 in the quick tier and 1..2500 around 80, 160, 300, 320, 600, 640 in the thorough tier, on both sides of the 300-record loader buffer and of the 80-rows-per-worker threshold; @@CPU 1, 2, 4, 8), then correlated sub-queries (EXISTS, IN, scalar, NOT EXISTS under GROUP BY) with 10-12 distinct outer-column references over an outer table below and above the per-worker split size, then RAND / NOW / JSON_OBJECT, list aggregates WITHIN GROUP ordered by expressions over derived tables with many groups, prepared statements executed USING literals, variables, arithmetic and sub-queries (positional and named placeholders, GROUP BY/HAVING, UPDATE, cursors declared for prepared statements), then statements of 47 kinds (6 file formats, filters, 7 join forms, GROUP BY/HAVING, ORDER BY, DISTINCT, set operators, 4 analytic families, recursive CTE, DML, cursor, 6 failing statements) on tables of 200-3000 rows with @@CPU drawn from 2..8 under the race detector; non-trivial = distinct (statement kind, @@CPU, row band, error code)",
+        rule="static: every access to a shared variable in every fork-join region of lib/query (closures passed to GoroutineTaskManager.Run / EvaluateSequentially, bodies started with go, the parent between fork and join, methods of the manager types), classified and checked by kernel evaluation; dynamic: a load matrix first (CSV, TSV, fixed-length, LTSV, JSONL, JSON; from a file and from stdin; with and without header; row counts 159/161/299/301/650 in the quick tier and 1..2500 around 80, 160, 300, 320, 600, 640 in the thorough tier, on both sides of the 300-record loader buffer and of the 80-rows-per-worker threshold; @@CPU 1, 2, 4, 8), then correlated sub-queries (EXISTS, IN, scalar, NOT EXISTS under GROUP BY) with 10-12 distinct outer-column references over an outer table below and above the per-worker split size, then RAND / NOW / JSON_OBJECT, a user-defined function that FETCHes an outer cursor called from a parallel WHERE / select list next to CURSOR … IS OPEN / IS IN RANGE / COUNT (known finding F79), list aggregates WITHIN GROUP ordered by expressions over derived tables with many groups, prepared statements executed USING literals, variables, arithmetic and sub-queries (positional and named placeholders, GROUP BY/HAVING, UPDATE, cursors declared for prepared statements), then statements of 47 kinds (6 file formats, filters, 7 join forms, GROUP BY/HAVING, ORDER BY, DISTINCT, set operators, 4 analytic families, recursive CTE, DML, cursor, 6 failing statements) on tables of 200-3000 rows with @@CPU drawn from 2..8 under the race detector; non-trivial = distinct (statement kind, @@CPU, row band, error code)",
         trusted_base=BASE_TRUST + [
             "extract/parfacts: syntactic access classification (go/ast + go/types), refuses constructs without a rule; plain function callees of worker closures are not analysed; method summaries are syntactic",
             "the Go memory model, rendered as the lockset race definition of Csvq/Model/ForkJoin.lean",
